@@ -1,3 +1,4 @@
+import Oidc.Shapes
 import Oidc.Proofs.Discovery
 import Oidc.Facts
 /-! # C20 — provider discovery failures fail closed and heal without a restart (property theorems only)
@@ -75,5 +76,10 @@ example : (initRun { exF with loops := false } ((List.replicate 7 (.fail 0)) ++ 
 example : early exF (some 64) false 40 none = .serve := by decide
 example : early exF (some 64) false 30 none = .unavailable503 := by decide
 example : early exF (some 64) false 40 (some 50) = .timeout408 := by decide
+
+
+/-! obligations against the regenerated shapes: the functions these theorems rest on still have the steps, guards, status
+    codes and literals the model was written against (`Oidc/Shapes.lean`) -/
+theorem shape_ServeHTTP_ok : Oidc.Shapes.Shape_ServeHTTP := by unfold Oidc.Shapes.Shape_ServeHTTP; rfl
 
 end Oidc.Props.C20
